@@ -358,7 +358,8 @@ func runNoop(id string, d noopDef, variant string, nv noopVar, hasSet bool, uid 
 		}
 		c.Twin, c.UT = run(false, "")
 		c.Twin2 = []any{}
-		if nv.redefFirst {
+		// twin2 also models the deviation "nested-reject-keeps-macros" (NoopTrace: Explains)
+		if nv.redefFirst || (strings.HasPrefix(variant, "route-") && strings.HasPrefix(d.name, "defmac")) {
 			c.Setup = strings.ReplaceAll(c.Setup, fmt.Sprint(uid+1), fmt.Sprint(uid+2))
 			for i := range c.Probes {
 				c.Probes[i] = strings.ReplaceAll(c.Probes[i], fmt.Sprint(uid+1), fmt.Sprint(uid+2))
